@@ -912,6 +912,35 @@ def finding_case(spec):
                 what="segment %s -> %s passes %.3f m away from the triangle but _basic_visibility reports it "
                      "hidden: _point_in_polygon(%s) = %s (exact oracle: %s)" % (
                          p.tolist(), q.tolist(), cl, x.tolist(), got_pip, want_pip)))
+    # second finding: a side that meets the +x ray of the rotated frame at an angle below epsilon
+    # (1e-6 rad) is skipped by the 'parallel' gate of _project_to_plane, so an interior point of an
+    # extreme sliver triangle is reported outside (PipGeneral.v: the steepness hypothesis of
+    # C07_winding_general_position is necessary)
+    pts = np.array([[0.0, 0, 0], [2e6, 1.0, 0], [0.0, 2.0, 0]])
+    n = np.array([0.0, 0, 1.0])
+    x = np.array([1.0, 0.5, 0.0])
+    p, q = x + np.array([0, 0, 1.0]), x - np.array([0, 0, 1.0])
+    ex = ExactSurface(pts, n)
+    want_pip = ex.pip(x)
+    got_pip = bool(G._point_in_polygon(point3d=x, polygon3d=pts, plane_normal=n))
+    got_vis = bool(G._basic_visibility(p, q, pts, n))
+    tok = Tok().cmd("q_pip").f(EPS).f(ETA)
+    surf_tok(tok, pts, n).vecs([x])
+    r = run_driver(tok)
+    out["evaluations"] += 1
+    out["traces"] += 1
+    out["dist"]["finding_sliver_model_%s" % ("agrees" if bools(r[0][1])[0] == got_pip else "DIFFERS")] = 1
+    if bools(r[0][1])[0] != got_pip:
+        out["mismatches"].append(dict(stage="sliver witness", what="model %s impl %s" % (bools(r[0][1])[0], got_pip),
+                                      case=dict(kind="finding", name="sliver", seed=spec["seed"], idx=spec["idx"])))
+    if want_pip and not got_pip:
+        out["prop_failures"].append(dict(
+            test="sliver_side_skipped",
+            case=dict(kind="finding", name="sliver", seed=spec["seed"], idx=spec["idx"], pts=pts.tolist(),
+                      normal=n.tolist(), x=x.tolist()),
+            what="the point %s lies inside the triangle %s (0.5 m from every edge) but _point_in_polygon "
+                 "reports it outside and the segment through it is reported %s" % (
+                     x.tolist(), pts.tolist(), "visible" if got_vis else "hidden")))
     return out
 
 
